@@ -9,6 +9,8 @@ pub assume_specification<Idx: Clone>[ <core::ops::Range<Idx> as Clone>::clone ](
 pub mod attrs_ {
 use super::*;
 use vstd::prelude::*;
+use vstd::string::*;
+use vstd::utf8::*;
 use core::ops::Range;
 
 pub mod shim_a {
@@ -1018,6 +1020,118 @@ impl<'a> Attributes<'a> {
                 { &self.bytes[range] }).into())),
             Some(Err(e)) => Some(Err(e)),
         }
+    }
+//@end
+}
+// ---- looking an attribute up by name (BytesStart::try_get_attribute; BytesDecl::encoding / standalone use it) ----
+/// the FIRST attribute named `name` as the iterator (duplicate check off) yields the attributes of the tag from state `st` on; an error of
+/// the iterator in front of it is the result (the iteration of next_spec; terminates by lemma_next_progress)
+pub open spec fn find_attr(st: State, html: bool, s: Seq<u8>, name: Seq<u8>) -> core::result::Result<Option<Attr<Range<usize>>>, AttrError>
+    decreases ahead(st, s.len()) via find_attr_decreases
+{
+    if !state_ok(st, s.len()) || s.len() > usize::MAX { Ok(None) } else {
+        let step = next_spec(st, html, false, Seq::<Range<usize>>::empty(), s);
+        match step.out {
+            None => Ok(None),
+            Some(Err(e)) => Err(e),
+            Some(Ok(a)) => if attr_key_text(s, a) == name { Ok(Some(a)) } else { find_attr(step.state, html, s, name) },
+        }
+    }
+}
+#[via_fn]
+proof fn find_attr_decreases(st: State, html: bool, s: Seq<u8>, name: Seq<u8>) {
+    if state_ok(st, s.len()) && s.len() <= usize::MAX {
+        lemma_next_progress(st, html, false, Seq::<Range<usize>>::empty(), s);
+    }
+}
+impl<'a> BytesStart<'a> {
+//@extract events::BytesStart::try_get_attribute | src/events/mod.rs :: impl<'a> BytesStart<'a> :: fn try_get_attribute | serves=C11,C17 n1=match
+//@rewrite try_get_attribute<N: AsRef<[u8]> + Sized>( ==> try_get_attribute(
+//@rewrite attr_name: N, ==> attr_name: &str,
+//@rewrite a.key.as_ref() == attr_name.as_ref() ==> bytes_eq(a.key.0, attr_name.as_bytes())
+ pub fn try_get_attribute(
+        &'a self,
+        attr_name: &str,
+    ) -> (r: Result<Option<Attribute<'a>>, AttrError>)
+        requires self.name_len <= self.buf@.len()
+        // C11: the FIRST attribute with that name (duplicates are not checked), its key and value being exactly the bytes of its
+        // ranges; nothing if there is none; the iterator's error if one comes first
+        ensures match find_attr(State::Next(self.name_len), false, self.buf@, attr_name.spec_bytes()) {
+            Ok(None) => r == Result::<Option<Attribute<'a>>, AttrError>::Ok(None),
+            Err(e) => r == Result::<Option<Attribute<'a>>, AttrError>::Err(e),
+            Ok(Some(a)) => r matches Ok(Some(at)) && item_of(self.buf@, a, at),
+        }
+    {
+        let ghost want = find_attr(State::Next(self.name_len), false, self.buf@, attr_name.spec_bytes());
+        let ghost nm = attr_name.spec_bytes();
+        match self.attributes().with_checks(false){ mut __it1 => loop
+            invariant __it1.inv(), __it1.bytes@ == self.buf@, !__it1.state.html, !__it1.state.check_duplicates,
+                find_attr(__it1.state.state, false, self.buf@, nm) == want,
+                want == find_attr(State::Next(self.name_len), false, self.buf@, nm), nm == attr_name.spec_bytes(),
+            ensures want == find_attr(State::Next(self.name_len), false, self.buf@, attr_name.spec_bytes()),
+                want == core::result::Result::<Option<Attr<Range<usize>>>, AttrError>::Ok(None),
+            decreases __it1.ahead()
+          { let ghost st1 = __it1.state.state; let ghost k1 = __it1.state.keys@;
+            proof { reveal(attr_key_text); lemma_next_keys_irrelevant(st1, false, k1, self.buf@); axiom_slice_len(__it1.bytes); }
+            let ghost step = next_spec(st1, false, false, Seq::<Range<usize>>::empty(), self.buf@);
+            proof {
+                // one unfolding of find_attr at the current state
+                assert(state_ok(st1, self.buf@.len()) && self.buf@.len() <= usize::MAX);
+                assert(find_attr(st1, false, self.buf@, nm) == (match step.out {
+                    None => Ok(None),
+                    Some(Err(e)) => Err(e),
+                    Some(Ok(a)) => if attr_key_text(self.buf@, a) == nm { Ok(Some(a)) } else { find_attr(step.state, false, self.buf@, nm) },
+                }));
+            }
+            match __it1.next() { None => { break; } Some( a) => {
+            let a = a?;
+            proof { assert(step.out matches Some(Ok(x)) && item_of(self.buf@, x, a) && a.key.0@ == attr_key_text(self.buf@, x)); }
+            if bytes_eq(a.key.0, attr_name.as_bytes()) {
+                return Ok(Some(a));
+            }
+        } } } }
+        Ok(None)
+    }
+//@end
+}
+/// std: `Result<Option<T>, E>::transpose`
+pub assume_specification<T, E>[ core::result::Result::<Option<T>, E>::transpose ](r: core::result::Result<Option<T>, E>) -> (o: Option<core::result::Result<T, E>>)
+    ensures match r { Ok(None) => o is None, Ok(Some(x)) => o == Some(core::result::Result::<T, E>::Ok(x)), Err(e) => o == Some(core::result::Result::<T, E>::Err(e)) };
+/// the value of the pseudo-attribute `name` of an XML declaration: the FIRST one with that name (C17: `encoding="..."`)
+pub open spec fn decl_attr<'a>(d: BytesDecl<'a>, name: Seq<u8>, r: Option<core::result::Result<Cow<'a, [u8]>, AttrError>>) -> bool {
+    match find_attr(State::Next(d.content.name_len), false, d.content.buf@, name) {
+        Ok(None) => r is None,
+        Err(e) => r == Some(core::result::Result::<Cow<'a, [u8]>, AttrError>::Err(e)),
+        Ok(Some(a)) => r matches Some(Ok(v)) && v@ =~= val_text(d.content.buf@, a),
+    }
+}
+/// the bytes of the value range of a located attribute (attr_value_text without its opacity)
+pub open spec fn val_text(s: Seq<u8>, a: Attr<Range<usize>>) -> Seq<u8> {
+    match a { Attr::DoubleQ(_, v) => key_text(s, v), Attr::SingleQ(_, v) => key_text(s, v), Attr::Unquoted(_, v) => key_text(s, v), Attr::Empty(_) => Seq::<u8>::empty() }
+}
+impl<'a> BytesDecl<'a> {
+//@extract events::BytesDecl::encoding | src/events/mod.rs :: impl<'a> BytesDecl<'a> :: fn encoding | serves=C11,C17
+ pub fn encoding(&self) -> (r: Option<Result<Cow<[u8]>, AttrError>>)
+        requires self.content.name_len <= self.content.buf@.len()
+        // the value of the FIRST pseudo-attribute `encoding` (errors of the attribute syntax in front of it are passed on)
+        ensures decl_attr(*self, "encoding".spec_bytes(), r)
+    {
+        self.content
+            .try_get_attribute("encoding")
+            .map(|a: Option<Attribute>| -> (o: Option<Cow<[u8]>>) ensures o == (match a { Some(x) => Some(x.value), None => None }) { a.map(|a: Attribute| -> (v: Cow<[u8]>) ensures v == a.value { a.value }) })
+            .transpose()
+    }
+//@end
+//@extract events::BytesDecl::standalone | src/events/mod.rs :: impl<'a> BytesDecl<'a> :: fn standalone | serves=C11
+ pub fn standalone(&self) -> (r: Option<Result<Cow<[u8]>, AttrError>>)
+        requires self.content.name_len <= self.content.buf@.len()
+        // the value of the FIRST pseudo-attribute `standalone` (errors of the attribute syntax in front of it are passed on)
+        ensures decl_attr(*self, "standalone".spec_bytes(), r)
+    {
+        self.content
+            .try_get_attribute("standalone")
+            .map(|a: Option<Attribute>| -> (o: Option<Cow<[u8]>>) ensures o == (match a { Some(x) => Some(x.value), None => None }) { a.map(|a: Attribute| -> (v: Cow<[u8]>) ensures v == a.value { a.value }) })
+            .transpose()
     }
 //@end
 }
